@@ -13,7 +13,7 @@ from ..cxx.model import NULL, Bool, Int, Ref, Str, Opaque, PyObj, fresh
 from ..cxx.symex import Unsupported
 
 TUPLE_SUBCLASS = 1 << 26
-TYPE_CONST = {'PyTuple_Type': T.nt_exact_tuple, 'PyUnicode_Type': T.nt_exact_str}
+TYPE_CONST = {'PyTuple_Type': T.nt_exact_tuple, 'PyUnicode_Type': T.nt_exact_str, 'PyLong_Type': T.ss_exact_int}
 
 
 @contract
@@ -79,6 +79,30 @@ class IsNamedTupleClassImpl(Contract):
                 owned.pop(hit)
             s1.ghost['owned'] = tuple(owned)
             return [(s1, None)]
+        if name == 'Py_XDECREF':
+            # Py_XDECREF(o): nothing for NULL, otherwise Py_DECREF(o)
+            (s1, o), = eng.ev(args_n[0], st)
+            r = self.ref(o)
+            s_null = s1.clone()
+            eng.assume(s_null, r == NULL)
+            eng.assume(s1, r != NULL)
+            outs = []
+            if eng.feasible(s1):
+                owned = list(s1.ghost['owned'])
+                hit = next((k for k, x in enumerate(owned) if x.eq(r)), None)
+                eng.oblige(s1, 'IV', 'Py_XDECREF:releases-a-reference-this-function-owns', z3.BoolVal(hit is not None), line)
+                if hit is not None:
+                    owned.pop(hit)
+                s1.ghost['owned'] = tuple(owned)
+                outs.append((s1, None))
+            if eng.feasible(s_null):
+                outs.append((s_null, None))
+            return outs
+        if name == 'PyObject_HasAttr':
+            # PyObject_HasAttr(o, name): 1 / 0, never fails, leaves the error indicator as it was (A-CAPI)
+            (s1, o), = eng.ev(args_n[0], st)
+            (s2, nm), = eng.ev(args_n[1], s1)
+            return [(s2, z3.If(T.nt_has(self.ref(o), self.attr_name(nm)), z3.IntVal(1), z3.IntVal(0)))]
         if name == 'PyErr_Clear':
             st.ghost['pyerr'] = z3.BoolVal(False)
             return [(st, None)]
@@ -221,3 +245,187 @@ class StructSequenceGetFieldsSummary(Contract):
         f = z3.Function('structseq_fields_of', Ref, Ref)(z3.If(T.nt_is_type(r), r, M.py_type(r)))
         st.pc.append(z3.And(f != NULL, M.py_is_tuple(f)))
         return [(st, PyObj(f, stable=True))]
+
+
+# ---- struct sequence classes ---------------------------------------------------------------------------------------------
+BASETYPE = 1 << 10
+
+
+@contract
+class IsStructSequenceClassImpl(IsNamedTupleClassImpl):
+    """IsStructSequenceClassImpl(type) against the shared predicate SS_impl (ocv/twinspec.py).  Additional raw CPython
+    accesses, used through their documented meaning (A-CAPI):
+      PyType_FastSubclass(t, Py_TPFLAGS_TUPLE_SUBCLASS) / PyType_HasFeature(t, Py_TPFLAGS_BASETYPE) -> flag tests
+      t->tp_bases -> the bases tuple (or NULL);  PyTuple_CheckExact / PyTuple_GET_SIZE / PyTuple_GET_ITEM on it
+      PyLong_CheckExact(v) -> type(v) is int;  &PyTuple_Type -> the object `tuple`.
+    The loop over the three attribute names iterates a literal list and is unrolled exactly."""
+    name = 'IsStructSequenceClassImpl'
+    this_is_spec = False
+    props = ('C18', 'C15', 'C16')
+
+    def __init__(self):
+        self.loops = {}
+
+    def setup(self, eng, st, fn):
+        cx = super().setup(eng, st, fn)
+        st.facts.append(T.ss_names_distinct())
+        return cx
+
+    def call_hook(self, eng, st, name, args_n, n):
+        if name in ('PyType_FastSubclass', 'PyType_HasFeature'):
+            (s1, t), = eng.ev(args_n[0], st)
+            (s2, flag), = eng.ev(args_n[1], s1)
+            flag = z3.simplify(flag)
+            if not z3.is_int_value(flag):
+                raise Unsupported(f'{name} with a symbolic flag')
+            pred = {TUPLE_SUBCLASS: T.nt_tuple_subclass, BASETYPE: T.ss_basetype, 1 << 24: T.ss_is_int}.get(flag.as_long())
+            if pred is None:
+                raise Unsupported(f'{name} with flag {flag}')
+            return [(s2, z3.If(pred(self.ref(t)), z3.IntVal(1), z3.IntVal(0)))]
+        if name == 'PyTuple_CheckExact':
+            (s1, o), = eng.ev(args_n[0], st)
+            return [(s1, z3.If(T.nt_exact_tuple(self.ref(o)), z3.IntVal(1), z3.IntVal(0)))]
+        if name == 'PyLong_CheckExact':
+            (s1, o), = eng.ev(args_n[0], st)
+            return [(s1, z3.If(T.ss_exact_int(self.ref(o)), z3.IntVal(1), z3.IntVal(0)))]
+        if name == 'PyTuple_GET_SIZE':
+            (s1, o), = eng.ev(args_n[0], st)
+            eng.oblige(s1, 'IV', 'PyTuple_GET_SIZE:argument-is-a-tuple', T.nt_exact_tuple(self.ref(o)), n.get('line'))
+            return [(s1, M.py_len(self.ref(o)))]
+        if name == 'PyTuple_GET_ITEM':
+            (s1, o), = eng.ev(args_n[0], st)
+            (s2, i), = eng.ev(args_n[1], s1)
+            eng.oblige(s2, 'IV', 'PyTuple_GET_ITEM:index-in-range',
+                       z3.And(T.nt_exact_tuple(self.ref(o)), 0 <= i, i < M.py_len(self.ref(o))), n.get('line'))
+            return [(s2, M.py_item(self.ref(o), i))]
+        return super().call_hook(eng, st, name, args_n, n)
+
+    def member_hook(self, eng, st, base, name, n):
+        if name == 'tp_bases' and isinstance(base, PyObj):
+            return T.ss_bases(base.ref)
+        return None
+
+    def post(self, cx, ret):
+        c = cx.old('type').ref
+        return [('result-is-the-struct-sequence-class-predicate', ret == T.SS_impl(c)),
+                ('every-reference-obtained-is-released', z3.BoolVal(len(cx.st.ghost['owned']) == 0)),
+                ('error-indicator-clear-on-return', z3.Not(cx.st.ghost['pyerr']))]
+
+
+# ---- struct sequence field names -------------------------------------------------------------------------------------------
+ss_n_members = z3.Function('ss_n_members', Ref, Int)       # number of entries of tp_members before the {NULL} terminator
+ss_member_name = z3.Function('ss_member_name', Ref, Int, Ref)   # str(tp_members[i].name)
+
+
+class MemberTable:
+    """`type->tp_members`: a NULL-terminated PyMemberDef array (or NULL); entry i may be read for 0 <= i <= ss_n_members."""
+    def __init__(self, cls, null):
+        self.cls, self.null = cls, null
+
+
+class MemberEntry:
+    def __init__(self, cls, idx):
+        self.cls, self.idx = cls, idx
+
+
+@contract
+class StructSequenceGetFieldsImpl(Contract):
+    """StructSequenceGetFieldsImpl(type) (CPython branch): the first min(n, M) member names for n >= 0, the first max(M + n, 0)
+    for n < 0 (Python's `names[:n]`), where n = int(type.n_sequence_fields) read now and M = the number of entries of
+    tp_members; every read of the member table stays inside it (terminator included) - C16."""
+    name = 'StructSequenceGetFieldsImpl'
+    this_is_spec = False
+    sized_container_obligation = True
+    props = ('C16', 'C18')
+
+    def __init__(self):
+        self.loops = {0: Loop(self.count_inv), 1: Loop(self.fill_inv)}
+
+    def setup(self, eng, st, fn):
+        cx = super().setup(eng, st, fn)
+        c = st.get('type').ref
+        self.cls = c
+        self.tbl_null = z3.Bool('tp_members_is_null')
+        st.facts.append(ss_n_members(c) >= 0)
+        st.facts.append(z3.Implies(self.tbl_null, ss_n_members(c) == 0))
+        self.n_attr = z3.Int('n_sequence_fields_now')
+        return cx
+
+    def member_hook(self, eng, st, base, name, n):
+        if name == 'tp_members' and isinstance(base, PyObj):
+            return MemberTable(base.ref, self.tbl_null)
+        if name == 'name' and isinstance(base, MemberEntry):
+            line = n.get('line') if n else 0
+            eng.oblige(st, 'II', 'tp_members:entry-read-is-inside-the-table-or-its-terminator',
+                       z3.And(z3.Not(self.tbl_null), 0 <= base.idx, base.idx <= ss_n_members(base.cls)), line)
+            return ('member-name', base.cls, base.idx)
+        return None
+
+    def call_hook(self, eng, st, name, args_n, n):
+        if name == 'getattr':
+            # py::getattr(type, <interned name>): the class attribute as it is now (A-ATTR), or the lookup raises
+            (s1, o), = eng.ev(args_n[0], st)
+            (s2, nm), = eng.ev(args_n[1], s1)
+            if isinstance(nm, Opaque) and nm.tag.startswith('pyid:'):
+                r = o.ref if isinstance(o, PyObj) else o
+                eng.may_call_python(s2, 'getattr', n.get('line'))
+                s_exc = s2.clone()
+                eng.throw(s_exc, 'pybind11::error_already_set', n.get('line'), 'from getattr')
+                v = T.nt_attr(r, T.nt_name(nm.tag[5:]))
+                s2.pc.append(v != NULL)
+                return [(s2, PyObj(v))]
+        if name in ('max', 'min') and len(args_n) == 2:
+            from ..cxx.symex import as_int
+            (s1, a), = eng.ev(args_n[0], st)
+            (s2, b), = eng.ev(args_n[1], s1)
+            a, b = as_int(a), as_int(b)
+            return [(s2, z3.If(a >= b, a, b) if name == 'max' else z3.If(a <= b, a, b))]
+        return None
+
+    def on_str_from_value(self, eng, st, v, line, oblige=True):
+        if isinstance(v, tuple) and v and v[0] == 'member-name':
+            if oblige:
+                eng.oblige(st, 'II', 'py::str(member.name):the-name-is-not-the-NULL-of-the-terminator',
+                           z3.And(0 <= v[2], v[2] < ss_n_members(v[1])), line)
+            return PyObj(ss_member_name(v[1], v[2]), fresh=True, stable=True)
+        return None
+
+    def equal_hook(self, eng, st, a, b):
+        from ..cxx.symex import Ptr
+        for x, y in ((a, b), (b, a)):
+            if isinstance(y, Ptr) and y.oid is None:
+                if isinstance(x, MemberTable):
+                    return x.null
+                if isinstance(x, tuple) and x and x[0] == 'member-name':
+                    return x[2] == ss_n_members(x[1])       # the terminator is the only entry with a NULL name
+        return None
+
+    def subscript_hook(self, eng, st, base, idx, n):
+        if isinstance(base, MemberTable):
+            from ..cxx.symex import as_int
+            return MemberEntry(base.cls, as_int(idx))
+        return None
+
+    def count_inv(self, cx):
+        k = cx.var('n_members')
+        return [('count-in-range', z3.And(0 <= k, k <= ss_n_members(self.cls))), ('table-not-null', z3.Not(self.tbl_null))]
+
+    def fill_inv(self, cx):
+        i = cx.var('i')
+        return [('index-in-range', z3.And(0 <= i, i <= cx.var('n_sequence_fields')))]
+
+    def post(self, cx, ret):
+        n0 = M.py_as_int(T.nt_attr(self.cls, T.nt_name('n_sequence_fields')))
+        m = ss_n_members(self.cls)
+        want = z3.If(n0 < 0, z3.If(m + n0 >= 0, m + n0, 0), z3.If(n0 <= m, n0, m))
+        return [('result-length-is-within-the-member-table', z3.And(0 <= M.py_len(ret.ref), M.py_len(ret.ref) <= m)),
+                ('result-length-is-that-of-the-slice-names[:n_sequence_fields]', M.py_len(ret.ref) == want)]
+
+    def raises(self, cx):
+        return {'pybind11::error_already_set': None, 'pybind11::cast_error': None}
+
+    def frame(self, cx, ret):
+        return []
+
+    def frame_exc(self, cx):
+        return []
